@@ -7,7 +7,7 @@ cd $W; export PYTHONPATH=$W
 { echo "== demo on unchanged tree"; /venv/bin/python _seed/demo.py 2>&1 | tail -3; echo "exit=$?  (pipe) "; /venv/bin/python _seed/demo.py >/dev/null 2>&1; echo "demo_unchanged_exit=$?"
   git apply $(ls $S/patch_rebased*.diff 2>/dev/null || echo $S/patch.diff) && echo "patch applied"
   if [ -f $S/mutated.so.xz ]; then PYX=$(grep -m1 '^+++ b/.*\.pyx' $S/patch.diff | sed 's#^+++ b/##'); SO=${PYX%.pyx}.cpython-312-x86_64-linux-gnu.so; xz -dc $S/mutated.so.xz > $W/$SO && echo "mutated extension installed: $SO"; fi
-  if [ -f $S/rebuild.sh ]; then mkdir -p $W/_seed; cp $S/rebuild.sh $W/_seed/; (cd $W && sh _seed/rebuild.sh >/dev/null 2>&1 && echo "extensions rebuilt by the seed's rebuild.sh"); fi
+  if [ -f $S/rebuild.sh ]; then mkdir -p $W/_seed; cp $S/rebuild.sh $W/_seed/; (cd $W && bash _seed/rebuild.sh >/dev/null 2>&1 && echo "extensions rebuilt by the seed's rebuild.sh"); fi
   echo "== demo with change"; /venv/bin/python _seed/demo.py 2>&1 | tail -3; /venv/bin/python _seed/demo.py >/dev/null 2>&1; echo "demo_changed_exit=$?"
   echo "== test suite with change"; /venv/bin/python -m pytest -q -p no:cacheprovider --timeout=900 --continue-on-collection-errors compmech 2>&1 | tail -4
 } > $L 2>&1
